@@ -25,6 +25,7 @@ struct Inner {
     reset: bool,
     first_byte_at: Option<Instant>,
     total: usize,
+    write_failed: bool,
 }
 
 /// Client end of a TCP connection with a background reader and writer task.
@@ -56,7 +57,7 @@ impl TcpEnd {
         let _ = stream.set_nodelay(true);
         let local = stream.local_addr()?;
         let (mut rd, mut wr) = stream.into_split();
-        let inner = Arc::new(Mutex::new(Inner { rx: vec![], taken: 0, closed: false, closed_at: None, reset: false, first_byte_at: None, total: 0 }));
+        let inner = Arc::new(Mutex::new(Inner { rx: vec![], taken: 0, closed: false, closed_at: None, reset: false, first_byte_at: None, total: 0, write_failed: false }));
         let notify = Arc::new(Notify::new());
         let (tx, mut rx) = mpsc::unbounded_channel::<Cmd>();
         let kill = Arc::new(Notify::new());
@@ -98,11 +99,13 @@ impl TcpEnd {
                 notify.notify_one();
             });
         }
+        let inner_w = inner.clone();
         tokio::spawn(async move {
             while let Some(cmd) = rx.recv().await {
                 match cmd {
                     Cmd::Data(d) => {
                         if wr.write_all(&d).await.is_err() {
+                            lock(&inner_w).write_failed = true;
                             break;
                         }
                     }
@@ -128,6 +131,11 @@ impl TcpEnd {
     pub fn kill(&self) {
         let _ = self.tx.send(Cmd::Kill);
         self.kill.notify_one();
+    }
+
+    /// A write to the socket failed (the peer had closed its socket and answered with a reset).
+    pub fn write_failed(&self) -> bool {
+        lock(&self.inner).write_failed
     }
 
     pub fn closed(&self) -> bool {
